@@ -1442,6 +1442,7 @@ class Translator:
             run(rec)
         finally:
             self.n, self.ctx, self.killed = saved_n, saved_ctx, saved_k
+        self.last_shape = set(rec.shape)         # of these, the ones assigned otherwise than by single element writes
         return [v for v in env.visible() if v in rec]
 
     def block(self, blk, env, k):
@@ -1759,7 +1760,7 @@ class Translator:
             self.block(th, env, lambda env2, v: (ends.append(env2), g_ok(g_raw("tt")))[1])
             self.block(el, env, lambda env2, v: (ends.append(env2), g_ok(g_raw("tt")))[1])
         outer_ctx = self.ctx
-        M = self.assigned_in(run, env)
+        M = self.assigned_in(run, env); shape = self.last_shape
         # a variable declared without initialiser takes part in the join only if every path that falls through assigns it
         # (otherwise it is still unassigned afterwards and the assignments are local to their branch)
         M = [v for v in M if v not in env.uninit or all(v not in e2.uninit for e2 in ends)]
@@ -1773,7 +1774,7 @@ class Translator:
             b = self.block(el, env, lambda env2, v: g_ok(g_raw(names_term(names))))
         finally:
             self.ctx = outer_ctx
-        for v in M: self.ctx.note(v)
+        for v in M: self.ctx.note(v, elem_only=(v not in shape))      # element writes stay element writes through a nested construct
         return wrap(B, mk_bind(names_pat(names), ("if", c, a, b), rest(env_after)))
 
     def for_stmt(self, s, env, rest, after=None):
@@ -1804,7 +1805,7 @@ class Translator:
             self.ctx = self.ctx.sub(record=rec, cont=lambda env2: g_ok(g_raw("tt")))
             self.block(body, env_i, lambda env2, v: g_ok(g_raw("tt")))
         outer_ctx = self.ctx
-        M = self.assigned_in(run, env)
+        M = self.assigned_in(run, env); shape = self.last_shape
         # a variable that is still unassigned at the loop head is assigned in every pass before it is read and is not read
         # after the loop (definite assignment): it is local to the body, not part of the loop state
         M = [v for v in M if v not in env.uninit]
@@ -1831,7 +1832,7 @@ class Translator:
         else:
             fun = ("fun", [(iv.g, None), ("_", "unit")], bt)
         loop = ("app", "for_z" if signed else ("for_rev" if rev else "for_"), [g_raw(lo), g_raw(hi), fun, g_raw(names_term(names))])
-        for v in M: self.ctx.note(v)
+        for v in M: self.ctx.note(v, elem_only=(v not in shape))      # element writes stay element writes through a nested construct
         B2 = after(lo, hi) if after is not None else []          # a canonicalised counter loop: the final value of its counter
         if early:
             loop = ("app", "for_ret", loop[2])
@@ -1980,7 +1981,7 @@ class Translator:
             self.ctx = self.ctx.sub(record=rec, cont=lambda env2: g_ok(g_raw("tt")))
             self.block(body, env_i, lambda env2, v: g_ok(g_raw("tt")))
         outer_ctx = self.ctx
-        M = self.assigned_in(run, env)
+        M = self.assigned_in(run, env); shape = self.last_shape
         M = [v for v in M if v not in env.uninit]
         owner = self.root_var(src, env)
         if owner in M: self.bad("the vector a `for` loop drains is assigned inside the loop")
@@ -2001,7 +2002,7 @@ class Translator:
         else:
             fun = ("fun", [(iv.g, None), ("_", "unit")], bt)
         loop = ("app", "for_in", [g_raw(lst), fun, g_raw(names_term(names))])
-        for v in M: self.ctx.note(v)
+        for v in M: self.ctx.note(v, elem_only=(v not in shape))      # element writes stay element writes through a nested construct
         B2 = []
         if drain: self.assign_place(src, "(@nil %s)" % gtype(LISTS[tl]), tl, env, B2)
         else:                                               # `for x in v` moves v: it must not be read again
@@ -2022,7 +2023,7 @@ class Translator:
             self.block(body, env, lambda env2, v: g_ok(g_raw("tt")))
         outer_ctx = self.ctx
         saved_w = self.nwhile
-        M = self.assigned_in(run, env)
+        M = self.assigned_in(run, env); shape = self.last_shape
         M = [v for v in M if v not in env.uninit]
         self.nwhile = saved_w
         names = self.state_of(M)
@@ -2046,7 +2047,7 @@ class Translator:
             fun = ("fun", [(names[0] if M else "_", sty)], inner)
         fuel = wt["fuel"].format(**{v.name: v.g for v in env.visible()})
         loop = ("app", "while_ret", [g_raw(fuel), fun, g_raw(names_term(names))])
-        for v in M: self.ctx.note(v)
+        for v in M: self.ctx.note(v, elem_only=(v not in shape))      # element writes stay element writes through a nested construct
         o, r = self.fresh("o"), self.fresh("r")
         exhaust = wt.get("on_exhaust", "Panic Guard")
         ex_term = ("panic", exhaust[6:]) if exhaust.startswith("Panic ") else outer_ctx.ret_raw(exhaust)
